@@ -1,12 +1,236 @@
+/-
+C19 — Shard reloads are safe under concurrent search and converge to disk.  Property theorems only; lemmas in
+C19/Lemmas.lean.
+
+Statement (properties.jsonl): while shards are added, replaced and removed under running searches, every search
+completes without a crash or data race and returns, for each repository, results from exactly one consistent version
+of its shard.  Once the directory stops changing, the loaded shard set equals the newest-format *.zoekt files present
+on disk (with their metadata sidecars).
+Quantifier: all interleavings of directory changes (create, replace by rename, delete, sidecar update) with searches,
+listings and garbage collection of replaced shards.
+
+What is proved here, about the models of C19/Model.lean (the code after the two `fix:` commits):
+* the directory watcher's name parser is total (`versionFromPath_total`; it was not: `versionFromPath_full_false`);
+* one scan computes exactly the newest supported version of every shard name with the mtimes of shard and sidecar
+  (`scan_newest`, `C19_checkScan`), a second scan of an unchanged directory loads and drops nothing (`scan_quiescent`);
+* copy-on-write shard set, for every interleaving of replace (key by key, one atomic publish), search begin / end and
+  finalizers (`CReach`): a search only ever works on a list that was published after a complete replace, with one
+  version per key (`snapshot_consistent`); no searcher that the map, the published list or a running search still
+  refers to is ever closed (`no_use_after_close`); only replaced searchers are closed, once (`closed_only_replaced`);
+  a replaced searcher that nothing refers to can be closed (`replaced_closable`).
+Data races and the run-time's finalizer / munmap behaviour are outside any model (run-time evidence: harness, -race).
+-/
 import ZoektModel.C19.Lemmas
 namespace ZoektModel.C19
 open ZoektModel
 
-/-- the code before the fix panics on `x_.zoekt` -/
+/-! ## versionFromPath -/
+
+/-- **total after the fix**: for every byte string `versionFromPath` returns -/
+theorem versionFromPath_total (path : Bytes) : ∃ r, versionFromPath true path = .ok r := vfp_fixed_ok path
+
+/-- the statement "versionFromPath never panics" was false of the code before the fix: `x_.zoekt` -/
 theorem versionFromPath_full_false : ¬ ∀ path, ∃ r, versionFromPath false path = .ok r := by
   intro h
   obtain ⟨r, hr⟩ := h [120, 95, 46, 122, 111, 101, 107, 116]
-  revert hr
+  have : versionFromPath false [120, 95, 46, 122, 111, 101, 107, 116] = .panic "slice bounds out of range [und+2:dot]" := by
+    decide
+  rw [this] at hr
+  cases hr
+
+/-- the fix changes nothing where the old code returned -/
+theorem versionFromPath_fix_conservative (path : Bytes) (r : Bytes × Int)
+    (h : versionFromPath false path = .ok r) : versionFromPath true path = .ok r := vfp_old_ok_eq path r h
+
+/-! ## scan -/
+
+/-- **one scan never fails and computes the newest set**: its new table is, in listing order, exactly the files that
+    can be stat'ed whose version is non-negative, supported, and not exceeded by a supported version of the same
+    name — each with the mtimes of shard and sidecar. (`supported fv nv 0`: true for the real constants 16, 17.) -/
+theorem scan_newest (fv nv : Int) (h0 : supported fv nv 0 = true) (fs : List Ent) (old : Table Stamp) :
+    ∃ o, scan true fv nv fs old = .ok o ∧ o.ts = newestSpec fv nv fs ∧
+      o.toLoad = ((newestSpec fv nv fs).filter fun (k, st) => old.get? k != some st).map (·.1) ∧
+      o.toDrop = (old.filter fun (k, _) => ((newestSpec fv nv fs).get? k).isNone).map (·.1) :=
+  ⟨_, scan_spec fv nv h0 fs old, rfl, rfl, rfl⟩
+
+theorem sameSet_refl {α} [BEq α] [LawfulBEq α] (l : List α) : sameSet l l = true := by
+  simp [sameSet, List.all_eq_true]
+
+/-- **the executable statement holds of the model**: for every listing and every previous table -/
+theorem C19_checkScan (fv nv : Int) (h0 : supported fv nv 0 = true) (fs : List Ent) (old : Table Stamp) :
+    checkScan fv nv fs old (scan true fv nv fs old) = none := by
+  rw [scan_spec fv nv h0 fs old]
+  simp [checkScan, sameSet_refl]
+
+/-- a key of a table built by `filterMap` over distinct file names finds its own entry -/
+theorem get?_self_of_nodup {β} : ∀ (t : Table β), (t.map (·.1)).Nodup → ∀ kv ∈ t, t.get? kv.1 = some kv.2 := by
+  intro t
+  induction t with
+  | nil => intro _ kv h; simp at h
+  | cons a r ih =>
+    intro hn kv hkv
+    simp only [List.map_cons, List.nodup_cons] at hn
+    rcases List.mem_cons.mp hkv with rfl | hmem
+    · simp [Table.get?]
+    · have hne : (a.1 == kv.1) = false := by
+        have : a.1 ≠ kv.1 := fun h => hn.1 (h ▸ List.mem_map.mpr ⟨kv, hmem, rfl⟩)
+        simpa using this
+      have := ih hn.2 kv hmem
+      simp only [Table.get?] at this ⊢
+      simp [List.find?_cons, hne, this]
+
+theorem newestSpec_keys_sublist (fv nv : Int) (fs : List Ent) :
+    ((newestSpec fv nv fs).map (·.1)).Sublist (fs.map (·.fn)) := by
+  rw [newestSpec_eq]
+  unfold newestOn
+  generalize fs = L at *
+  suffices ∀ l : List Ent, ((l.filterMap fun e => match e.mtime with
+      | none => none
+      | some mt => if isNewest fv nv L e then some (e.fn, (mt, e.side)) else none).map (·.1)).Sublist (l.map (·.fn)) from
+    this L
+  intro l
+  induction l with
+  | nil => simp
+  | cons e t ih =>
+    simp only [List.filterMap_cons, List.map_cons]
+    split
+    · exact List.Sublist.cons _ ih
+    · rename_i b hb
+      have hfn : b.1 = e.fn := by
+        cases hm : e.mtime with
+        | none => simp [hm] at hb
+        | some mt =>
+          simp only [hm] at hb
+          split at hb
+          · simp only [Option.some.injEq] at hb; rw [← hb]
+          · simp at hb
+      simp only [List.map_cons, hfn]
+      exact ih.cons₂ _
+
+/-- **quiescence**: scanning an unchanged directory again (distinct file names, as `Glob` returns them) asks the loader
+    for nothing and leaves the table as it is -/
+theorem scan_quiescent (fv nv : Int) (h0 : supported fv nv 0 = true) (fs : List Ent) (old : Table Stamp)
+    (hnd : (fs.map (·.fn)).Nodup) :
+    ∃ o1 o2, scan true fv nv fs old = .ok o1 ∧ scan true fv nv fs o1.ts = .ok o2 ∧
+      o2.ts = o1.ts ∧ o2.toLoad = [] ∧ o2.toDrop = [] := by
+  refine ⟨_, _, scan_spec fv nv h0 fs old, scan_spec fv nv h0 fs _, rfl, ?_, ?_⟩
+  · have hn := (newestSpec_keys_sublist fv nv fs).nodup hnd
+    simp only [List.map_eq_nil_iff, List.filter_eq_nil_iff]
+    intro kv hkv
+    have := get?_self_of_nodup _ hn kv hkv
+    simp [this]
+  · have hn := (newestSpec_keys_sublist fv nv fs).nodup hnd
+    simp only [List.map_eq_nil_iff, List.filter_eq_nil_iff]
+    intro kv hkv
+    have := get?_self_of_nodup _ hn kv hkv
+    simp [this]
+
+/-- the single "latest mtime" the watcher kept before the second fix cannot see a sidecar that is removed while the
+    shard is the newer file: different (shard, sidecar) states, same timestamp -/
+theorem effTime_forgets_sidecar : ∃ (mt s : Nat), (mt, some s) ≠ ((mt, none) : Stamp) ∧ effTime mt (some s) = effTime mt none :=
+  ⟨2, 1, by decide, by decide⟩
+
+/-! ## copy-on-write shard set -/
+
+/-- **one consistent version per key, never a half-applied batch**: in every reachable state the published list and the
+    snapshot of every running search is a list that was published after a complete `replace`, and holds at most one
+    searcher per key -/
+theorem snapshot_consistent (s : CState) (h : CReach s) :
+    (s.ranked ∈ s.published ∧ (keysOf s.ranked).Nodup) ∧
+    ∀ x ∈ s.searches, x = [] ∨ (x ∈ s.published ∧ (keysOf x).Nodup) := by
+  have inv := creach_inv1 h
+  refine ⟨⟨inv.pub_ranked, inv.pub_nodup _ inv.pub_ranked⟩, ?_⟩
+  intro x hx
+  rcases inv.pub_search x hx with h | h
+  · exact Or.inl h
+  · exact Or.inr ⟨h, inv.pub_nodup _ h⟩
+
+/-- what is published is the map as it is after the *last* key of a batch: `ranked` changes only in `replaceStore` -/
+theorem publish_only_complete (s s' : CState) (a : CAct) (hs : cstep s a = some s') (hne : s'.ranked ≠ s.ranked) :
+    a = .replaceStore ∧ s.pending = some [] ∧ s'.ranked = s.shards := by
+  cases a with
+  | replaceStore =>
+    simp only [cstep] at hs
+    split at hs
+    · rename_i hp; simp only [Option.some.injEq] at hs; subst hs; exact ⟨rfl, hp, rfl⟩
+    · simp at hs
+  | replaceBegin batch =>
+    simp only [cstep] at hs
+    split at hs
+    · simp at hs
+    · split at hs <;> (simp only [Option.some.injEq] at hs; subst hs; exact absurd rfl hne)
+  | replaceKey =>
+    simp only [cstep] at hs
+    split at hs
+    · simp only [Option.some.injEq] at hs; subst hs; exact absurd rfl hne
+    · simp at hs
+  | searchBegin => simp only [cstep, Option.some.injEq] at hs; subst hs; exact absurd rfl hne
+  | searchEnd i =>
+    simp only [cstep] at hs
+    split at hs
+    · simp only [Option.some.injEq] at hs; subst hs; exact absurd rfl hne
+    · simp at hs
+  | finalize sid =>
+    simp only [cstep] at hs
+    split at hs
+    · simp only [Option.some.injEq] at hs; subst hs; exact absurd rfl hne
+    · simp at hs
+
+/-- **no use after close**: a searcher whose `Close` has run is referred to by nothing — not by the map, not by the
+    published list, not by the snapshot of any running search -/
+theorem no_use_after_close (s : CState) (h : CReach s) : ∀ c ∈ s.closed, ¬ Reachable s c :=
+  (creach_inv2 h).closed_unreach
+
+/-- only searchers that `replace` took out of the map are ever closed, and each at most once -/
+theorem closed_only_replaced (s : CState) (h : CReach s) :
+    (∀ c ∈ s.closed, c ∈ s.finalizable ∧ c ∉ sidsOf s.shards) := by
+  intro c hc
+  exact ⟨(creach_inv2 h).closed_fin c hc, fun hm => (creach_inv2 h).closed_unreach c hc (Or.inl hm)⟩
+
+theorem closed_once (s s' : CState) (sid : Nat) (hs : cstep s (.finalize sid) = some s') : sid ∉ s.closed := by
+  simp only [cstep] at hs
+  split at hs
+  · rename_i hg
+    simp only [Bool.and_eq_true, List.contains_eq_mem, decide_eq_true_eq, Bool.not_eq_true', decide_eq_false_iff_not] at hg
+    exact hg.1.2
+  · simp at hs
+
+/-- a replaced searcher that nothing refers to any more can be closed (no leak by construction of the protocol) -/
+theorem replaced_closable (s : CState) (sid : Nat) (hf : sid ∈ s.finalizable) (hc : sid ∉ s.closed)
+    (hu : ¬ Reachable s sid) : ∃ s', cstep s (.finalize sid) = some s' := by
+  have : reachable s sid = false := by
+    cases hr : reachable s sid with
+    | false => rfl
+    | true => exact absurd ((reachable_iff s sid).mp hr) hu
+  exact ⟨{ s with closed := sid :: s.closed }, by simp [cstep, hf, hc, this]⟩
+
+/-! ## non-vacuity -/
+
+/-- `foo_v16.00000.zoekt` ↦ (`foo`, 16) -/
+example : versionFromPath true [102, 111, 111, 95, 118, 49, 54, 46, 48, 48, 48, 48, 48, 46, 122, 111, 101, 107, 116]
+    = .ok ([102, 111, 111], 16) := by decide
+
+def loadOf : Outcome ScanOut → Option (List Bytes)
+  | .ok r => some r.toLoad
+  | _ => none
+
+/-- a scan that loads, a second scan that does nothing, a removed sidecar that is noticed -/
+example :
+    let f : Bytes := [102, 95, 118, 49, 54, 46, 122]   -- "f_v16.z"
+    loadOf (scan true 16 17 [⟨f, some 5, some 3⟩] []) = some [f] ∧
+    loadOf (scan true 16 17 [⟨f, some 5, some 3⟩] [(f, (5, some 3))]) = some [] ∧
+    loadOf (scan true 16 17 [⟨f, some 5, none⟩] [(f, (5, some 3))]) = some [f] := by decide
+
+/-- replace under a running search: the search keeps version 0 of key 7, the published list has version 1, version 0
+    cannot be finalized until the search ends, and can afterwards -/
+example :
+    (crun CState.init [.replaceBegin [(7, true)], .replaceKey, .replaceStore, .searchBegin,
+        .replaceBegin [(7, true)], .replaceKey, .replaceStore]).map (fun s => (s.ranked, s.searches, s.finalizable))
+      = some ([(7, 1)], [[(7, 0)]], [0]) ∧
+    (crun CState.init [.replaceBegin [(7, true)], .replaceKey, .replaceStore, .searchBegin,
+        .replaceBegin [(7, true)], .replaceKey, .replaceStore, .finalize 0]) = none ∧
+    (crun CState.init [.replaceBegin [(7, true)], .replaceKey, .replaceStore, .searchBegin,
+        .replaceBegin [(7, true)], .replaceKey, .replaceStore, .searchEnd 0, .finalize 0]).map (·.closed) = some [0] := by
   decide
 
 end ZoektModel.C19
